@@ -341,8 +341,10 @@ struct Gen {
         if (!arr.empty() && !big && rng.chance(0.25)) { t_fin = arr.front().t + (int64_t)rng.below((uint64_t)(last - arr.front().t + 1)); cnt("deadline_fired_mid_stream"); }
         if (mode == "batch") { put(t_fin, "SETAVAIL"); put(t_fin + 3, "FINISH", -1, "", (rng.next() & 0xffffff) + 1); }
         else if (mode == "finish") put(t_fin, "FINISH", -1, "", (rng.next() & 0xffffff) + 1);
-        if (mode == "finish" && (prof == "C10" || rng.chance(0.1)) && rng.chance(0.5)) { /* a second timer is not protocol-conforming for LDPC: not generated */ }
-        int64_t t_end = std::max(last, t_fin) + 500;
+        // a deadline that fired mid-stream is followed by the ordinary quiescence timer: a second of_finish_decoding. (For
+        // LDPC/2D the executor lets it through only when the first attempt decoded the block - DESIGN H1.)
+        if (mode == "finish" && t_fin < last && rng.chance(prof == "C10" ? 0.8 : 0.4)) { put(last + 200000, "FINISH", -1, "", (rng.next() & 0xffffff) + 1); cnt("second_finish_timer"); }
+        int64_t t_end = std::max(last, t_fin) + 200600;
         std::stable_sort(mine.begin(), mine.end(), [](const Ev &a, const Ev &b) { return a.t < b.t; });
         if (sw.api_faults) {
             int nf = (int)rng.range(1, 3);
